@@ -241,6 +241,8 @@ def run(ctx):
         # reconstruct the payload the string must have carried: version || secret || [01]
         pre = k._wif_prefix if getattr(k, '_wif_prefix', None) else None
         # from the decoded FIELDS (32-byte secret, compression flag), not from the raw bytes the object happens to hold
+        if k.secret >= 2 ** 256:
+            return 'accept secret-of-%d-bytes' % ((k.secret.bit_length() + 7) // 8)
         payload = k.secret.to_bytes(32, 'big') + (b'\x01' if k.compressed else b'')
         return 'accept ' + payload.hex()
 
@@ -275,7 +277,12 @@ def run(ctx):
                 else:
                     known = any(pf[0].lower() == raw[:4].hex() for n in NETWORK_DEFINITIONS
                                 for pf in NETWORK_DEFINITIONS[n]['prefixes_wif'])
-                    exp = 'accept ' + raw[4:].hex() if known and len(raw) == 78 else 'none'
+                    priv_ver = any(pf[0].lower() == raw[:4].hex() and pf[2] == 'private' for n in NETWORK_DEFINITIONS
+                                   for pf in NETWORK_DEFINITIONS[n]['prefixes_wif'])
+                    pub_ver = any(pf[0].lower() == raw[:4].hex() and pf[2] == 'public' for n in NETWORK_DEFINITIONS
+                                  for pf in NETWORK_DEFINITIONS[n]['prefixes_wif'])
+                    key_ok = len(raw) == 78 and ((priv_ver and raw[45] == 0) or (pub_ver and raw[45] in (2, 3)))
+                    exp = 'accept ' + raw[4:].hex() if known and len(raw) == 78 and key_ok else 'none'
             if py != exp:
                 if py == 'none':
                     ctx.count('refused-where-spec-accepts:' + kind)
@@ -344,6 +351,43 @@ def run(ctx):
                         items.append((m, py_xkey(m, 'from_wif')))
         cmp_b58check(items, kind)
 
+    def b58dec_h(st):
+        n_ = 0
+        for ch in st:
+            n_ = n_ * 58 + B58.index(ch)
+        body = n_.to_bytes((n_.bit_length() + 7) // 8, 'big')
+        return b'\0' * (len(st) - len(st.lstrip('1'))) + body
+
+    def restamp(payload):
+        return b58enc_ref(payload + sha256d(payload)[:4])
+
+    def structural(strings, kind):
+        # strings whose CHECKSUM IS RIGHT but whose payload is not one of the class: wrong length, wrong flag, wrong key field, unknown version
+        items = []
+        for s_ in strings:
+            raw = b58dec_h(s_)[:-4]
+            if kind == 'wif':
+                sec = raw[1:33]
+                edits = [raw[:1] + sec[:20], raw[:1] + sec[:31], raw[:1] + sec + b'\x01\x01', raw[:1] + sec + b'\x00', raw[:1] + sec + b'\x02',
+                         raw[:1], raw[:1] + b'\0' + sec, b'\x07' + raw[1:], raw[:1] + sec[1:] + b'\x01']
+            else:
+                flip = bytes([2 if raw[45] == 0 else 0])
+                edits = [raw[:45] + flip + raw[46:], raw[:45] + b'\x04' + raw[46:], raw[:-1], raw + b'\x00', raw[:4] + raw[5:], b'\x01\x02\x03\x04' + raw[4:],
+                         raw[:45] + b'\x01' + raw[46:]]
+            for e_ in edits:
+                m_ = restamp(e_)
+                if not ok_token(m_):
+                    continue
+                ctx.count('structural-mutant:' + kind)
+                if kind == 'wif':
+                    items.append((m_, py_wif(m_)))
+                else:
+                    items.append((m_, py_xkey(m_, 'init')))
+                    items.append((m_, py_xkey(m_, 'from_wif')))
+        cmp_b58check(items, kind)
+
+    structural(wifs[:12 if T else 4], 'wif')
+    structural(xkeys[:12 if T else 4], 'xkey')
     # every generated valid string of the Base58Check classes is decoded at least once (the mutant sweeps below take a subset)
     cmp_b58check([(w_, py_wif(w_)) for w_ in wifs], 'wif')
     cmp_b58check([(x_, py_xkey(x_, 'init')) for x_ in xkeys] + [(x_, py_xkey(x_, 'from_wif')) for x_ in xkeys], 'xkey')
